@@ -199,9 +199,43 @@ def w_numbers(case):
     return res
 
 
-SHAPES = {'FOR': b'\xe3I=1\xb89', 'FOR2': b'\xe3I=1\xb82:\xe3J=1\xb82', 'NEXT': b'\xed', 'NEXT2': b'\xed:\xed',
+SHAPES = {'FORNEXT': b'\xe3I=1\xb89:\xed', 'REPUNTIL': b'\xf5:\xfdX', 'NEXTFOR': b'\xedI:\xe3J=1\xb82',
+          'FOR': b'\xe3I=1\xb89', 'FOR2': b'\xe3I=1\xb82:\xe3J=1\xb82', 'NEXT': b'\xed', 'NEXT2': b'\xed:\xed',
           'REPEAT': b'\xf5', 'UNTIL': b'\xfdX', 'FORREP': b'\xe3I=1\xb82:\xf5', 'NEXTUNTIL': b'\xed:\xfd0',
           'PLAIN': b'\xf1"hi"', 'STR': b'\xf1"\xe3\xed\xf5\xfd"', 'REM': b'\xf4 plain'}
+
+
+def compare_lines(dialect, listo, lines, how, res, sig, note):
+    st, variants = R.listing_lines(dialect, lines, listo)
+    if st != R.WELL:
+        res['out']['skipped-' + st] = res['out'].get('skipped-' + st, 0) + 1
+        return
+    prog = R.frame(dialect, lines)
+    d = run.scratch()
+    args = ['--dialect', dialect, '--listo', str(listo)]
+    if how == 'file':
+        p = dfsrun.write(d, 'prog.bbc', prog)
+        r = dfsrun.basic(BIN, args + [p], cwd=d)
+    else:
+        r = dfsrun.basic(BIN, args + ['-'], cwd=d, stdin=prog)
+    res['n'] += 1
+    got = r.out.split(b'\n')
+    bad = None
+    if r.status() != 'exit0' or r.err:
+        bad = 'fail:' + r.status()
+    elif len(got) != len(variants) + 1 or got[-1] != b'':
+        bad = 'line-count'
+    else:
+        for k, (g, v) in enumerate(zip(got, variants)):
+            if g + b'\n' not in v:
+                bad = 'text'
+                break
+    if bad:
+        res['out']['bad'] = res['out'].get('bad', 0) + 1
+        res['viol'].append(('%s:%s' % (sig, bad), '%s dialect=%s listo=%d %s: got %r, acceptable %r' % (
+            note, dialect, listo, how, r.out[:120], [sorted(v)[0] for v in variants][:6])))
+    else:
+        res['out']['ok'] = res['out'].get('ok', 0) + 1
 
 
 def w_indent(case):
@@ -210,9 +244,13 @@ def w_indent(case):
         dialect, how = case['dialect'], case['how']
         for seq in case['seqs']:
             lines = [(10 * (i + 1), SHAPES[s]) for i, s in enumerate(seq)]
+            oneline = any(s in ('FORNEXT', 'REPUNTIL', 'NEXTFOR') for s in seq)
             for listo in case['listos']:
-                sig = 'C03:indent' + (':string-with-loop-bytes' if 'STR' in seq else '')
-                compare(dialect, listo, lines, how, res, sig, note='seq=%s' % (seq,))
+                sig = 'C03:indent' + (':string-with-loop-bytes' if 'STR' in seq else '') + (':one-line-loop' if oneline else '')
+                if oneline:
+                    compare_lines(dialect, listo, lines, how, res, sig, 'seq=%s' % (seq,))
+                else:
+                    compare(dialect, listo, lines, how, res, sig, note='seq=%s' % (seq,))
             res['nt'].append((R.CANON[dialect], tuple(seq)))
         if res['viol']:
             res['case'] = case
@@ -363,6 +401,15 @@ def fam_l6(tier):
         for seq in itertools.product(shapes, repeat=k):
             # prune sequences the reference calls out-of-domain at LISTO 7 (closing more than is open)
             st, _ = R.listing('6502', [(1, SHAPES[s]) for s in seq], 7)
+            if st == R.WELL:
+                seqs.append(seq)
+    # lines that open and close a loop on the same line (one-line loops), at every position of short sequences
+    shapes2 = ['FORNEXT', 'REPUNTIL', 'NEXTFOR', 'FOR', 'NEXT', 'REPEAT', 'UNTIL', 'PLAIN']
+    for k in range(1, (4 if tier == 'quick' else 5)):
+        for seq in itertools.product(shapes2, repeat=k):
+            if not any(s in ('FORNEXT', 'REPUNTIL', 'NEXTFOR') for s in seq):
+                continue
+            st, _ = R.listing_lines('6502', [(1, SHAPES[s]) for s in seq], 7)
             if st == R.WELL:
                 seqs.append(seq)
     dialects = ['6502', 'Z80', 'ARM', 'Windows'] if tier == 'quick' else R.DISTINCT
